@@ -75,11 +75,13 @@ def random_case(rng, name, types=None, length=(15, 45), tags=("random",)):
     types = types or TYPES9
     nsock = rng.randint(1, 2)
     socks = {}
+    sock_ident = {}
     for s in range(1, nsock + 1):
         t = rng.choice(types)
         ident = rng.choice([None, None, b"S%d" % s])
         sc.sock(s, t, ident)
         socks[s] = t
+        sock_ident[s] = ident
     pipes = {}  # p -> dict(sock, attached(bool), peer_type)
     futs = {}  # f -> kind
     np = 0
@@ -97,8 +99,28 @@ def random_case(rng, name, types=None, length=(15, 45), tags=("random",)):
             compat = COMPAT[t]
             pt = rng.choice(compat) if (compat and rng.random() < 0.85) else rng.choice(ALL12 + ["BOGUS"])
             ident = rng.choice([None, None, b"", b"p%d" % np, bytes([64 + np]) * 255, b"J" * 256])
+            # a peer that connects under an identity ANOTHER connection of the same socket already announced (a client
+            # that reconnects before its old connection's end was seen / two clients configured alike).  Not on PUB:
+            # which of the two reader tasks wins a race there is `select!`'s pick
+            mine = [q for q in pipes if pipes[q]["sock"] == s and pipes[q].get("ident")]
+            if mine and t != "PUB" and rng.random() < 0.2:
+                ident = pipes[rng.choice(mine)]["ident"]
             if rng.random() < 0.75:
                 f = sc.attach(s, np, pt, ident)
+            elif rng.random() < 0.3:
+                # a join ABANDONED part-way (the connect() future dropped by a timeout, the handshake task dropped with its
+                # listener): the connection must simply go away — nothing registered, both halves released
+                f = sc.fut()
+                stream = G + zmtp.ready(pt, ident)
+                cut = rng.choice([0, 10, 64, 70, len(stream)])
+                sc.add(f"attach {f} {s} {np}")
+                if rng.random() < 0.5 and sock_ident[s] is None and t != "SUB":
+                    # (with a configured identity the READY has two properties, written in HashMap order: a write cut
+                    # short by the credit would make the bytes on the wire depend on that order)
+                    sc.add(f"credit {np} {rng.choice([0, 10, 64, 70, 64 + 27, 64 + 27 + 3])}")
+                if cut:
+                    sc.add(f"reveal {np} {hx(stream[:cut])}")
+                sc.add(f"poll {f}", f"drop {f}", f"credit {np} inf")
             else:
                 # handshake delivered in pieces
                 f = sc.fut()
@@ -106,8 +128,11 @@ def random_case(rng, name, types=None, length=(15, 45), tags=("random",)):
                 cut = rng.randrange(1, len(stream))
                 sc.add(f"attach {f} {s} {np}", f"poll {f}", f"reveal {np} {hx(stream[:cut])}", f"poll {f}",
                        f"reveal {np} {hx(stream[cut:])}", f"poll {f}")
-            pipes[np] = dict(sock=s, peer=pt)
+            pipes[np] = dict(sock=s, peer=pt, ident=ident if ident and len(ident) <= 255 else None)
             sc.add(f"wire {np}", f"halves {np}")
+            for q in sorted(pipes):
+                if q != np and pipes[q]["sock"] == s and pipes[q].get("ident") == pipes[np]["ident"] and pipes[np]["ident"]:
+                    sc.add(f"halves {q}")
         elif r < 0.36 and pipes:
             p = rng.choice(sorted(pipes))
             pt = pipes[p]["peer"]
@@ -156,7 +181,7 @@ def random_case(rng, name, types=None, length=(15, 45), tags=("random",)):
                     sc.add(f"wire {p}")
         elif r < 0.84 and pipes:
             p = rng.choice(sorted(pipes))
-            sc.add(rng.choice([f"eof {p}", f"eof {p}", f"rderr {p} ConnectionReset"]))
+            sc.add(rng.choice([f"eof {p}", f"eof {p}", f"rderr {p} ConnectionReset", f"rderr {p} TimedOut"]))
         elif r < 0.88 and pipes:
             p = rng.choice(sorted(pipes))
             if socks[pipes[p]["sock"]] == "SUB":
@@ -164,7 +189,7 @@ def random_case(rng, name, types=None, length=(15, 45), tags=("random",)):
                 sc.add(rng.choice([f"credit {p} inf", f"wrerr {p} BrokenPipe", f"wrerr {p} ConnectionReset"]))
             else:
                 sc.add(rng.choice([f"credit {p} {rng.choice([0, 1, 3, 10, 100])}", f"credit {p} inf", f"wrerr {p} BrokenPipe",
-                                   f"wrerr {p} ConnectionReset"]))
+                                   f"wrerr {p} ConnectionReset", f"wrerr {p} TimedOut"]))
         elif r < 0.93:
             sc.add("drain")
         elif r < 0.95:
